@@ -52,6 +52,9 @@ func vMakeUpload(rng *vRand, path, kind string, n int) vUpload {
 		u.declSize = int64(n) - 1
 	case "wrongHash":
 		u.declHash = vSha(append([]byte{1}, data...))
+	case "emptyDeclared":
+		// non-empty bytes uploaded under the digest of the empty blob
+		u.declHash, u.declSize = "e3b0c44298fc1c149afbf4c8996fb92427ae41e4649b934ca495991b7852b855", 0
 	case "garbage", "truncstream", "trailing-garbage", "checksum":
 		u.badWire = kind
 	}
@@ -310,6 +313,9 @@ func TestVerifServerWritePaths(t *testing.T) {
 		if strings.HasPrefix(p, "bsWrite") || strings.HasPrefix(p, "fetchBlob") {
 			ks = append(ks, "abort")
 		}
+		if p == "httpPutZstd" || p == "batch" || p == "batchZstd" || p == "acInline" || p == "acInlineStdout" {
+			ks = append(ks, "emptyDeclared") // (ByteStream.Write and SpliceBlob return early for the empty blob, which exists)
+		}
 		if p == "batchOther" {
 			ks = []string{"unsupported"}
 		}
@@ -342,7 +348,7 @@ func TestVerifServerWritePaths(t *testing.T) {
 					if strings.HasPrefix(p, "fetchBlob") {
 						u.declSize = int64(len(u.data)) // FetchBlob has no declared size
 					}
-					if pre, _ := f.vMissing(u.declHash, u.declSize); !pre {
+					if pre, _ := f.vMissing(u.declHash, u.declSize); !pre && k != "emptyDeclared" {
 						rec.Count("collision-skipped") // tiny blobs can repeat: the claimed digest is already stored
 						continue
 					}
@@ -388,6 +394,9 @@ func TestVerifServerWritePaths(t *testing.T) {
 					}
 					if strings.HasPrefix(p, "splice") && n == 1 {
 						miss = true // the 1-byte original is itself one of the uploaded chunks
+					}
+					if k == "emptyDeclared" {
+						miss = true // the empty blob is always there: only the acknowledgement is at stake
 					}
 					if !good && !miss {
 						rec.Violation("C01", "srv.bad-present."+p+"."+k, fmt.Sprintf("%s storage, %s: after a %s upload the claimed digest %s/%d is present", mode, p, k, u.declHash[:8], u.declSize), rp)
